@@ -251,10 +251,21 @@ structure HC where
   len  : Nat
 deriving DecidableEq, Repr
 
-/-- `psf_bump_header_allocation (psf, needed)`; `none` = "Request for header allocation denied" -/
+/-- the limit of psf_bump_header_allocation -/
+def HEADER_CAP : Nat := 100 * 1024
+
+/-- `psf_bump_header_allocation (psf, needed)` since the repair ("fix: the 100k header buffer refused requests that would have
+    fit"); `none` = "Request for header allocation denied".  The request is doubled as before; when the doubled size passes the
+    limit the buffer grows to the limit itself, provided the bytes the caller is about to use (`indx + needed`) fit. -/
 def HC.bump (h : HC) (needed : Nat) : Option HC :=
   let newlen := if needed > h.len then 2 * max needed 256 else 2 * h.len
-  if newlen > 100 * 1024 then none else some { h with len := newlen }
+  if newlen > HEADER_CAP then (if h.indx + needed > HEADER_CAP then none else some { h with len := HEADER_CAP })
+  else some { h with len := newlen }
+
+/-- … before it: denied as soon as the doubled size passes the limit (a single item of more than 51200 bytes never fit) -/
+def HC.bumpOld (h : HC) (needed : Nat) : Option HC :=
+  let newlen := if needed > h.len then 2 * max needed 256 else 2 * h.len
+  if newlen > HEADER_CAP then none else some { h with len := newlen }
 
 /-- one format item of a `psf_binheader_writef` call: `raw = false` for m, 4, 8, 2, … (written without a further
     check, the loop head guarantees 16 bytes), `raw = true` for `b` (and `z`) -/
@@ -263,22 +274,24 @@ structure Item where
   n   : Nat
 deriving DecidableEq, Repr
 
-/-- One `psf_binheader_writef` call.  Returns the cache and, per item, whether its bytes went into the header.
-    Loop head: `if (indx + 16 >= len && bump (16)) break` abandons the rest of the call;
+/-- One `psf_binheader_writef` call over the allocation rule `bump`.  Returns the cache and, per item, whether its bytes went
+    into the header.  Loop head: `if (indx + 16 >= len && bump (16)) break` abandons the rest of the call;
     `b`: `if (indx + size > len && bump (size)) break` skips that item only. -/
-def HC.writef : HC → List Item → HC × List Bool
+def HC.writefW (bump : HC → Nat → Option HC) : HC → List Item → HC × List Bool
   | h, [] => (h, [])
   | h, it :: rest =>
-    match (if h.indx + 16 ≥ h.len then h.bump 16 else some h) with
+    match (if h.indx + 16 ≥ h.len then bump h 16 else some h) with
     | none => (h, (it :: rest).map fun _ => false)
     | some h1 =>
       if it.raw then
         if h1.indx + it.n > h1.len then
-          match h1.bump it.n with
-          | none => let r := HC.writef h1 rest; (r.1, false :: r.2)
-          | some h2 => let r := HC.writef { h2 with indx := h2.indx + it.n } rest; (r.1, true :: r.2)
-        else let r := HC.writef { h1 with indx := h1.indx + it.n } rest; (r.1, true :: r.2)
-      else let r := HC.writef { h1 with indx := h1.indx + it.n } rest; (r.1, true :: r.2)
+          match bump h1 it.n with
+          | none => let r := HC.writefW bump h1 rest; (r.1, false :: r.2)
+          | some h2 => let r := HC.writefW bump { h2 with indx := h2.indx + it.n } rest; (r.1, true :: r.2)
+        else let r := HC.writefW bump { h1 with indx := h1.indx + it.n } rest; (r.1, true :: r.2)
+      else let r := HC.writefW bump { h1 with indx := h1.indx + it.n } rest; (r.1, true :: r.2)
+
+def HC.writef : HC → List Item → HC × List Bool := HC.writefW HC.bump
 
 /-- the format items of one custom chunk whose padded length is `len` -/
 def chunkItems (c : Container) (len : Nat) : List Item :=
@@ -287,12 +300,14 @@ def chunkItems (c : Container) (len : Nat) : List Item :=
   | _ => [⟨false, 4⟩, ⟨false, 4⟩, ⟨true, len⟩]
 
 /-- the custom-chunk loop: one writef call per chunk; result: cache, and per chunk the flags of its items -/
-def HC.writeChunks (c : Container) : HC → List Nat → HC × List (List Bool)
+def HC.writeChunksW (bump : HC → Nat → Option HC) (c : Container) : HC → List Nat → HC × List (List Bool)
   | h, [] => (h, [])
   | h, n :: ns =>
-    let r := h.writef (chunkItems c n)
-    let r2 := HC.writeChunks c r.1 ns
+    let r := HC.writefW bump h (chunkItems c n)
+    let r2 := HC.writeChunksW bump c r.1 ns
     (r2.1, r.2 :: r2.2)
+
+def HC.writeChunks : Container → HC → List Nat → HC × List (List Bool) := HC.writeChunksW HC.bump
 
 /-- the bytes of one chunk that reach the header, given the flags -/
 def emitChunk (c : Container) (w : WChunk) (flags : List Bool) : List Byte :=
@@ -310,13 +325,18 @@ def emitChunks (c : Container) : List WChunk → List (List Bool) → List Byte
     `indx = 0` with the allocation reached so far.  `pre` = bytes the container writes before the custom chunks
     (RIFF/fmt, ds64/fmt, FORM/COMM, caff/desc: 36, 96, 38 and 52 bytes for 16-bit PCM without other metadata).
     Returns the per-chunk flags of the last pass and whether every item of every chunk was kept in both. -/
-def cachePasses (c : Container) (pre : Nat) (lens : List Nat) : List (List Bool) × Bool :=
-  let p1 := HC.writeChunks c ⟨pre, 256⟩ lens
-  let p2 := HC.writeChunks c ⟨pre, p1.1.len⟩ lens
+def cachePassesW (bump : HC → Nat → Option HC) (c : Container) (pre : Nat) (lens : List Nat) : List (List Bool) × Bool :=
+  let p1 := HC.writeChunksW bump c ⟨pre, 256⟩ lens
+  let p2 := HC.writeChunksW bump c ⟨pre, p1.1.len⟩ lens
   (p2.2, p2.2.all (·.all id) && p1.2.all (·.all id))
+
+def cachePasses : Container → Nat → List Nat → List (List Bool) × Bool := cachePassesW HC.bump
 
 /-- `fits`: every byte of every custom chunk reaches the header in both passes -/
 def hdrFits (c : Container) (pre : Nat) (lens : List Nat) : Bool := (cachePasses c pre lens).2
+
+/-- `fits` under the allocation rule before the repair -/
+def hdrFitsOld (c : Container) (pre : Nat) (lens : List Nat) : Bool := (cachePassesW HC.bumpOld c pre lens).2
 
 /-- the bytes between the container's leading chunks and its trailing ones -/
 def customRegion (c : Container) (pre : Nat) (ws : List WChunk) : List Byte :=
@@ -493,8 +513,11 @@ def unprintableId (c : Container) (id : Id) : Bool := !shortId id && !markAccept
 def reservedId (c : Container) (id : Id) : Bool :=
   !shortId id && ((interpreted c).contains (mark32Old (0, 0, 0) id) || (trailer c).contains (mark32Old (0, 0, 0) id)
     || tagLikeOld c (mark32Old (0, 0, 0) id))
-/-- class `header-cache`: total serialised header beyond what the cache accepts -/
-def headerCache (c : Container) (pre : Nat) (lens : List Nat) : Bool := !hdrFits c pre lens
+/-- class `header-cache`: total serialised header beyond what the cache accepts — a custom chunk loses bytes (`hdrFits`), or the
+    rest of the header behind the custom chunks (the audio chunk's own header; CAF: the `free` padding to a multiple of 0x1000
+    first) does not end 16 bytes below the limit of the same buffer -/
+def headerCache (c : Container) (pre : Nat) (lens : List Nat) : Bool :=
+  !hdrFits c pre lens || headerLen c pre ((lens.map fun n => hdrLen c + n).foldl (· + ·) 0) + 16 > HEADER_CAP
 /-- class `late-grow`: a chunk set after audio was written makes the header longer than the one the audio was
     written behind -/
 def lateGrow (c : Container) (pre custom late : Nat) : Bool := headerLen c pre (custom + late) != headerLen c pre custom
